@@ -3,6 +3,8 @@ package c15
 
 import (
 	"encoding/binary"
+	"github.com/btcsuite/btcd/btcec/v2"
+	"github.com/btcsuite/btcd/btcutil"
 	"os"
 	"testing"
 	"time"
@@ -238,6 +240,73 @@ func (s *sim) reorg(depth int, log string) {
 	s.extend(newLen, log+" new branch")
 }
 
+// importRescan: on the running, synchronised wallet a key is imported with a
+// rescan from a few blocks back. The backend reports progress after every
+// block, and after the first report the chain reorganises under the running
+// rescan (announced at once); the rescan continues on the new chain.
+func (s *sim) importRescan(step int) {
+	if s.f.Client == nil || s.f.Recovery > 0 {
+		return
+	}
+	tip := s.f.Chain.Tip().Height
+	back := int32(rapid.IntRange(2, 5).Draw(s.t, "rescanBack"))
+	startH := tip - back
+	if startH < s.bdayH {
+		startH = s.bdayH
+	}
+	if tip-startH < 2 {
+		return
+	}
+	start := s.f.Chain.At(startH)
+	depth := rapid.IntRange(1, int(tip-startH)).Draw(s.t, "reorgUnderRescan")
+	extra := rapid.IntRange(0, 1).Draw(s.t, "extraLen")
+	spent, planned := map[wire.OutPoint]bool{}, map[chainhash.Hash]bool{}
+	var ds []draft
+	for i := 0; i < depth+extra; i++ {
+		d := s.draftBlock(spent, planned, true)
+		// only new receipts: what the disconnected blocks held returns to the mempool and stays there
+		var fresh []*wire.MsgTx
+		for _, tx := range d.txs {
+			if !s.f.Chain.InMempool(tx.TxHash()) {
+				fresh = append(fresh, tx)
+			}
+		}
+		d.txs = fresh
+		ds = append(ds, d)
+	}
+	ch := s.f.Chain
+	s.f.Client.ProgressEvery = 1
+	s.f.Client.AfterProgress = func() {
+		for i := 0; i < depth; i++ {
+			ch.DisconnectTip()
+		}
+		for _, d := range ds {
+			ch.Extend(d.txs, d.ts, d.cbScript, d.cbVal)
+		}
+	}
+	raw := make([]byte, 32)
+	raw[0], raw[1], raw[2] = 0x41, byte(step+1), byte(tip)
+	priv, _ := btcec.PrivKeyFromBytes(raw)
+	wif, err := btcutil.NewWIF(priv, s.f.Params, true)
+	if err != nil {
+		s.f.Inconclusive("NewWIF: %v", err)
+	}
+	s.f.Unlock() // a restarted wallet is locked
+	before := len(s.f.Client.CallsOf("Rescan"))
+	bs := waddrmgr.BlockStamp{Height: start.Height, Hash: start.Hash, Timestamp: start.Time()}
+	if _, err := s.f.W.ImportPrivateKey(waddrmgr.KeyScopeBIP0084, wif, &bs, true); err != nil {
+		s.f.Violation("ImportPrivateKey with rescan failed: %v", err)
+	}
+	if !s.f.Client.WaitCalls("Rescan", before+1, 30*time.Second) {
+		s.f.Inconclusive("the wallet did not start the rescan for the imported key within 30s")
+	}
+	s.f.Quiesce()
+	s.f.Client.ProgressEvery = 0
+	s.c.Logf("key imported with a rescan from block %d; after the first progress report the chain reorganised %d deep (new tip %d)", startH, depth, s.f.Chain.Tip().Height)
+	s.c.Class("reorg-under-a-running-rescan")
+	s.reorgs++
+}
+
 func (s *sim) staleNotifications() {
 	if s.f.Client == nil {
 		return
@@ -270,6 +339,14 @@ func (s *sim) staleNotifications() {
 func (s *sim) check(where string) {
 	s.f.Quiesce()
 	s.f.CheckTipAndHistory(where, s.bdayH)
+	if s.f.Recovery > 0 {
+		// The recovery loop filters blocks itself, with the watch lists the
+		// wallet gives it (issued addresses, unspent outputs); whether those
+		// lists suffice to see every relevant transaction again after a reorg
+		// is not a statement of this property, so the ledger comparison - which
+		// assumes an ideally informed backend - is left to the other cases.
+		return
+	}
 	s.f.CheckBalances(where, s.book, []int32{0, 1, 2, 6})
 }
 
@@ -284,7 +361,10 @@ func TestC15TipFollowsBackend(t *testing.T) {
 		defer c.End()
 		seed := rapid.SliceOfN(rapid.Byte(), 32, 32).Draw(t, "seed")
 		t0 := time.Unix(1_700_000_000, 0)
-		f := walletsim.New(t, "C15", &chaincfg.RegressionNetParams, seed, t0, 0)
+		// a quarter of the wallets are opened with a recovery window, as the
+		// daemon does by default: every start then runs the recovery loop too
+		recov := uint32(rapid.SampledFrom([]int{0, 0, 0, 5}).Draw(t, "recoveryWindow"))
+		f := walletsim.New(t, "C15", &chaincfg.RegressionNetParams, seed, t0, recov)
 		f.StallIsViolation = true
 		f.PerAccount = true
 		defer f.Close()
@@ -326,7 +406,9 @@ func TestC15TipFollowsBackend(t *testing.T) {
 		s.check("after first sync")
 		steps := rapid.IntRange(1, maxSteps).Draw(t, "steps")
 		for i := 0; i < steps; i++ {
-			switch rapid.SampledFrom([]string{"extend", "extend", "reorg", "reorg", "stale", "mempool", "restart"}).Draw(t, "step") {
+			switch rapid.SampledFrom([]string{"extend", "extend", "reorg", "reorg", "stale", "mempool", "restart", "import-rescan"}).Draw(t, "step") {
+			case "import-rescan":
+				s.importRescan(i)
 			case "extend":
 				s.extend(rapid.IntRange(1, 5).Draw(t, "n"), "extend")
 			case "reorg":
@@ -381,6 +463,9 @@ func TestC15TipFollowsBackend(t *testing.T) {
 		}
 		if s.stale > 0 {
 			c.Class("stale-or-repeated-notification")
+		}
+		if recov > 0 {
+			c.Class("opened-with-recovery-window")
 		}
 		if f.Style == simchain.StyleBitcoind {
 			c.Class("style-bitcoind")
